@@ -32,7 +32,7 @@ from .. import computers, core, explorer, sig
 
 LEVEL = "model_checking"
 ASSUMPTIONS = [
-    "histories are bounded by depth (3, one configuration 4: quick / 4: thorough) from 12 initial configurations "
+    "histories are bounded by depth (3 quick / 4 thorough) from 12 initial configurations "
     "(statistics in {none, positive, negative, float32 mixed, small negative, big} x directory in "
     "{empty, pre-existing foreign files}); alphabet: 3 accumulate pieces and 20 save calls over "
     "paths {a.npy, a.npz, a.bin (raw), b.npz}, keys {None,'k','other'}, compress, overwrite",
@@ -377,8 +377,6 @@ def _configs(tier):
             out.append(dict(stats=stats, dir=d, depth=depth))
     if tier == "thorough":
         out += [dict(stats=s, dir="foreign", depth=3, norm_var=False) for s in ("pos", "neg", "f32")]
-    else:
-        out.insert(0, dict(stats="neg", dir="foreign", depth=4))  # one deeper exploration, started first
     return out
 
 
@@ -392,7 +390,7 @@ def subchecks(tier, seed):
         "without statistics; non-trivial = more than 4 distinct save observations",
         axes=dict(initial_stats=["pos", "neg", "f32", "none", "small_neg", "big"],
                   initial_dir=["foreign (a.npy, a.bin, a.npz{other,arr_0}, b.npz{k,arr_1})", "empty"],
-                  depth="3 (and 4 from negative statistics + foreign files)" if tier == "quick" else 4,
+                  depth=3 if tier == "quick" else 4,
                   accumulate=list(PIECES), saves=SAVES),
         replay=lambda case: explore_config(case["config"], seed, replay_ops=case["ops"]),
         chunk=1, kind="explore")]
